@@ -121,3 +121,59 @@ def canon_log(log, parallel):
                 break
         i = j
     return out
+
+
+# ------------------------------------------------------------------------------------------
+# python mirror of the harness's basis functions (only to synthesise observations)
+import math
+
+
+def py_basis(b, x, a):
+    k = b[0]
+    try:
+        if k == "const":
+            return 1.0
+        if k == "lin":
+            return x
+        if k == "expdecay":
+            return math.exp(-x / a[b[1]])
+        if k == "exprate":
+            return math.exp(-a[b[1]] * x)
+        if k == "gauss":
+            return math.exp(-(x - a[b[1]]) ** 2 / (2 * a[b[2]] ** 2))
+        if k == "rat":
+            return 1.0 / (1.0 + a[b[1]] * x)
+        if k == "cos":
+            return math.cos(a[b[1]] * x)
+        if k == "expcos":
+            return math.exp(-a[b[1]] * x) * math.cos(a[b[2]] * x)
+        if k == "poly":
+            return a[b[1]] * x + a[b[2]] * x * x + a[b[1]] * a[b[2]]
+        if k == "sq":
+            return (a[b[1]] + x) ** 2
+    except (OverflowError, ZeroDivisionError):
+        return float("inf")
+    raise ValueError(k)
+
+
+def synth_observations(rng, case, truth, noise=0.0, qbits=10):
+    """replace the observations of a generated problem by model(truth) * random coefficients + noise"""
+    m = case["meta"]
+    sc = case["scalar"]
+    basis = case["model"]["basis"]
+    xs = [unhx(h) for h in case["model"]["x"]]
+    S = m["S"]
+    Y = []
+    for s in range(S):
+        c = [rng.choice([-1, 1]) * dyadic(rng, 0.5, 3, 2) for _ in basis]
+        col = []
+        for x in xs:
+            v = sum(ci * py_basis(b, x, truth) for ci, b in zip(c, basis))
+            v += noise * rng.uniform(-1, 1)
+            v = round(v * (1 << qbits)) / (1 << qbits)
+            col.append(hx(v, sc))
+        Y.append(col)
+    for o in case["build"]:
+        if o[0] == "obs":
+            o[2] = Y
+    return case
